@@ -176,6 +176,7 @@ impl DescribedAccess {
 //@@ spec
     ensures
         old(self).counter >= old(self).field_count ==> r == Ok::<Option<ElemV>, Error>(None) && final(self).de == old(self).de,   // [C05.composite.trailing-fields-elided] no more fields than the (wire-declared) field count are read
+        final(self).field_count >= old(self).field_count,            // [C04.described.field-count-checked] the field count announced on the wire is added with an overflow check (the arithmetic obligation at that addition is what pins D27) [C15.described.field-count-checked]
 //@@ end
 
 //@@ fn file=serde_amqp/src/de.rs impl=`~impl<'de,R:Read<'de>>de::MapAccess<'de>forDescribedAccess<'_,R>` name=next_key_seed id=described_next_key_seed
@@ -191,6 +192,7 @@ impl DescribedAccess {
 //@@ spec
     ensures
         old(self).counter >= old(self).field_count ==> r == Ok::<Option<ElemV>, Error>(None) && final(self).de == old(self).de,
+        final(self).field_count >= old(self).field_count,            // [C04.described.field-count-checked] [C15.described.field-count-checked]
 //@@ end
 }
 
